@@ -34,6 +34,7 @@ func c09(c *Ctx) {
 	c09Header(c)
 	c09Presence(c)
 	c09Time(c)
+	c09Has(c)
 	c09Base64(c)
 	c09JWKPublic(c)
 }
